@@ -111,8 +111,72 @@ def sync_is_must_below(ctx, s, k):
     return True, ""
 
 
-def must_pass_flags(m, body, c, gate, P, stmt_event=False):
-    rem = set(body.ok_removed())
+def result_variant_pruning(ctx, A, cw, below):
+    """the event lies in a helper H called at block cw of A, and H tells its caller what it did through a fieldless enum in
+    its result (`Ok(HeadRollover::Created)`): arms of A's `match` on that value for variants H cannot return once the event
+    has happened are not executable on paths that start at the event.  Returns the arm blocks to ignore."""
+    facts = ctx.facts
+    (hid, _site, hbb) = below
+    H = facts.bodies.get(hid)
+    if H is None or A.term(cw)["k"] != "call" or (A.term(cw).get("callee") or "") != hid:
+        return set()
+    # return sites of H with a constant unit variant as (payload of) the value
+    sites = {}
+    for b in range(H.n):
+        if H.is_cleanup(b):
+            continue
+        for st in H.stmts(b):
+            if st["k"] == "assign" and st["pl"]["l"] == 0 and not st["pl"].get("p"):
+                ops = [st["rv"]["op"]] if st["rv"]["k"] == "use" else (st["rv"].get("ops", []) if st["rv"]["k"] == "agg" else [])
+                if st["rv"]["k"] == "agg" and not ops and st["rv"].get("ak") == "adt":
+                    sites.setdefault(b, set()).add((st["rv"].get("name"), st["rv"].get("variant")))
+                for o in ops:
+                    for r in trace(H, o):
+                        if r.kind == "agg" and r.obj is not None and r.obj.get("ak") == "adt" and not r.obj.get("ops") and not r.fields:
+                            sites.setdefault(b, set()).add((r.obj.get("name"), r.obj.get("variant")))
+    if not sites:
+        return set()
+    enums = {n_ for vs in sites.values() for (n_, _v) in vs}
+    if len(enums) != 1:
+        return set()
+    enum = enums.pop()
+    adt = facts.adts.get(enum)
+    if adt is None or any(v.get("fields") for v in adt.get("variants", [])):
+        return set()
+    names = [v["name"] for v in adt["variants"]]
+    after = H.reachable(H.succ(hbb), set(H.ok_removed()))
+    possible = {v for b, vs in sites.items() if b in after or b == hbb for (_n, v) in vs}
+    impossible = [names.index(v) for v in names if v not in possible]
+    if not impossible:
+        return set()
+    out = set()
+    preds = A.preds()
+    for sb in range(A.n):
+        t = A.term(sb)
+        if t["k"] != "switch" or A.is_cleanup(sb):
+            continue
+        hit = False
+        for st in A.stmts(sb):
+            if st["k"] == "assign" and st["rv"]["k"] == "discr" and A.place_ty(st["rv"]["pl"]) == enum and t["d"].get("pl", {}).get("l") == st["pl"]["l"]:
+                if any(r.kind in ("call", "via") and r.bb == cw for r in trace(A, st["rv"]["pl"], deep=True)) or any(r.kind == "call" and r.bb == cw for r in xtrace(facts, A, st["rv"]["pl"], depth=1)):
+                    hit = True
+        if not hit:
+            continue
+        listed = {int(v): tb for (v, tb) in t["vals"] if str(v).isdigit()}
+        for iv in impossible:
+            tb = listed.get(iv)
+            if tb is None:
+                # falls under `else`: only removable when every variant going there is impossible
+                others = [i for i in range(len(names)) if i not in listed]
+                if all(i in impossible for i in others):
+                    tb = t["else"]
+            if tb is not None and preds[tb] == [sb]:
+                out.add(tb)
+    return out
+
+
+def must_pass_flags(m, body, c, gate, P, stmt_event=False, extra_removed=frozenset()):
+    rem = set(body.ok_removed()) | set(extra_removed)
     targets = set(body.return_blocks()) if P == "ret" else {P}
     if c is None:
         starts = [0]
@@ -158,7 +222,8 @@ def covered_by_sync(ctx, root, q, w, syncs):
             continue
         # (2) s lies on every success path from w to the barrier, at this level and below
         g, gw = m.gate(A, cs, cw)
-        if g is None or not must_pass_flags(m, A, cw, g, P_A, stmt_event=w_stmt):
+        extra = result_variant_pruning(ctx, A, cw, w.chain[k + 1]) if k + 1 < len(w.chain) else set()
+        if g is None or not must_pass_flags(m, A, cw, g, P_A, stmt_event=w_stmt, extra_removed=extra):
             why = "a success path from %s to the barrier avoids %s in %s" % (w.event.key(), s.event.key(), short(fn))
             continue
         ok, wy = sync_is_must_below(ctx, s, k)
